@@ -47,7 +47,8 @@ STUBBED = ["socket/select/time/pinger (simkit)", "switch peer (scripted)"]
 EXPECT_PROBES = ["ps_add", "ps_modify", "ps_delete", "ps_readd", "ps_rename",
                  "ps_rehw", "ps_delete_unknown", "stats_multipart_done",
                  "stats_abandoned", "stats_interleaved", "stats_single",
-                 "glued_to_handshake_end", "stats_part_64k"]
+                 "glued_to_handshake_end", "stats_part_64k",
+                 "second_features_reply_in_handshake"]
 
 MULTI = {W.ST_FLOW: "FlowStatsReceived", W.ST_TABLE: "TableStatsReceived",
          W.ST_PORT: "PortStatsReceived", W.ST_QUEUE: "QueueStatsReceived"}
@@ -81,6 +82,14 @@ def gen_plan(seed, tier):
     {"reason": r.wpick([(3, 0), (4, 2), (3, 1)]), "port": r.randint(1, 2),
      "name_v": r.pick([0, 1]), "hw_v": r.pick([0, 0, 1]), "config": 0}
     for _ in range(r.wpick([(5, 0), (2, 2), (2, 3)]))]
+  rf = Rng(mix(seed, "again"))
+  if cfg["early_ps"] and rf.chance(0.3):
+    # the features reply arrives a second time during the handshake (with
+    # another port list), before / between / after the early port-status
+    cfg["features_again"] = {
+      "at": rf.randint(0, len(cfg["early_ps"])),
+      "ports": sorted(rf.sample([1, 2, 3, 4], rf.randint(0, 4))),
+      "name_v": rf.pick([0, 1])}
   steps = []
   n = r.randint(4, 30 if tier == "thorough" else 18)
   tag = [1000]
@@ -218,6 +227,19 @@ def _tags_of(stype, stats):
   return None
 
 
+def _features_again(sim, peer, xid, again):
+  """the switch answers the features request once more, still during the
+  handshake; the controller then waits for a new barrier"""
+  sim.drain()
+  peer.take()
+  peer.send(W.enc_features_reply(xid, 0x99, [_port(no, again["name_v"])
+                                             for no in again["ports"]]))
+  sim.drain()
+  br = [d for d in peer.take() if d["type"] == W.BARRIER_REQUEST]
+  sim.probes["second_features_reply_in_handshake"] += 1
+  return br[-1:] or None
+
+
 def _drive(sim, plan, known, hit):
   from pox.lib.addresses import EthAddr
   cfg = plan["cfg"]
@@ -243,13 +265,23 @@ def _drive(sim, plan, known, hit):
     br = [d for d in peer.take() if d["type"] == W.BARRIER_REQUEST]
     if not br:
       raise S.SimAbort("harness", "no barrier request")
+    again = cfg.get("features_again")
     for k, e in enumerate(early):
+      if again and again["at"] == k:
+        br = _features_again(sim, peer, fr[0]["xid"], again) or br
       peer.send(W.enc_port_status(0x7000 + k, e["reason"],
                                   _port(e["port"], e["name_v"], e["hw_v"],
                                         e["config"])))
       sim.probes["ps_during_handshake"] += 1
       if sim.ch.chance("early_ps_settle", 0.5):
         sim.drain()
+    if again and again["at"] >= len(early):
+      br = _features_again(sim, peer, fr[0]["xid"], again) or br
+    if again:
+      # a features reply describes the switch as of then: what was
+      # notified before it is superseded, what comes after it applies
+      ports0 = [_port(no, again["name_v"]) for no in again["ports"]]
+      early = early[min(again["at"], len(early)):]
     if glue:
       cork[0] = [W.enc_barrier_reply(br[0]["xid"])]
       sim.probes["glued_to_handshake_end"] += 1
